@@ -173,3 +173,13 @@ Definition invocable_table : list Z :=
   flat_map (fun p => flat_map (fun t => map (fun a => encb (invocable p t a)) [GResult; GValue; GError; GExc; GUnit])
                               [TInt; TVoid])
            [PResult; PValue; PError; PExc; PNone; PUnit; PAuto].
+
+(* (share ...) cases: the source chain, then each pipeline with the shared handle substituted for its bound variable;
+   three length-prefixed obs_z segments, [0] when the source does not run *)
+Definition obs_share (src : prog) (mk1 mk2 : prog -> prog) : list Z :=
+  match core_run src with
+  | Some os =>
+      let h := handle_of os in
+      flat_map (fun p => let l := obs_z p in nz (length l) :: l) [src; mk1 h; mk2 h]
+  | None => [0]
+  end.
